@@ -144,8 +144,12 @@ pub fn one_history(prop: &str, cfg: &HistCfg, library_every: usize, rep: &mut Re
                 rep.violate(Violation::new("C10", c10_rule_id(f.rule), opkind, &format!("crash after write #{} of the call", ord_in_op), format!("crash image {}/{} ({}): {}: {}", k, n, opdesc, f.path, f.detail), mk_case(&case)));
                 return;
             }
+            if let Some((c, v, live)) = out.lost_dangling.first() {
+                rep.violate(Violation::new("C10", if *live { "C10.crosslink" } else { "C10.live-free" }, opkind, &format!("unreferenced chain, crash after write #{} of the call", ord_in_op), format!("crash image {}/{} ({}): cluster {} is allocated but referenced by nothing, and links to cluster {} which is {} - not mere lost space: the next allocation or a repair makes two chains share a cluster", k, n, opdesc, c, v, if *live { "part of a live chain" } else { "free" }), mk_case(&case)));
+                return;
+            }
             if let Some((p, blk, off)) = out.junk_in_extent.first() {
-                rep.violate(Violation::new("C10", "C10.junk-exposed", opkind, &format!("behind the end marker, crash after write #{} of the call", ord_in_op), format!("crash image {}/{} ({}): a cluster of directory '{}' still holds uninitialised contents (block {} offset {}), reachable by a block-by-block lookup", k, n, opdesc, p, blk, off), mk_case(&case)));
+                rep.violate(Violation::new("C10", "C10.junk-exposed", opkind, &format!("behind the end marker, crash after write #{} of the call", ord_in_op), format!("crash image {}/{} ({}): a cluster of directory '{}' still holds uninitialised contents (block {} offset {}) behind the end marker: they turn into entries as soon as the slots before them are used up", k, n, opdesc, p, blk, off), mk_case(&case)));
                 return;
             }
             if let Some((p, blk, off)) = out.junk_exposed.first() {
